@@ -145,41 +145,16 @@ def _run_one(v: Dict[str, Any], prop: str, repo: str) -> Dict[str, Any]:
 
 
 # ------------------------------------------------------------------ whole-tree neutral rewrites
-import ast as _ast
-
-
-class _Renamer(_ast.NodeTransformer):
-    def __init__(self, mode: str):
-        self.mode = mode
-
-    def visit_FunctionDef(self, fn):
-        params = {a.arg for a in fn.args.args + fn.args.posonlyargs + fn.args.kwonlyargs}
-        stored = {n.id for n in _ast.walk(fn) if isinstance(n, _ast.Name) and isinstance(n.ctx, _ast.Store)}
-        glob = {x for n in _ast.walk(fn) if isinstance(n, (_ast.Global, _ast.Nonlocal)) for x in n.names}
-        is_njit = any("njit" in _ast.unparse(d) for d in fn.decorator_list)
-        nested = [n for n in _ast.walk(fn) if isinstance(n, (_ast.FunctionDef, _ast.Lambda)) and n is not fn]
-        if self.mode == "rename":
-            targets = (stored - params - glob) if not nested else set()
-        else:
-            targets = (params - {"self", "cls"}) if is_njit else set()
-        m = {t: t + "_rn" for t in targets if not t.startswith("__")}
-        for n in _ast.walk(fn):
-            if isinstance(n, _ast.Name) and n.id in m:
-                n.id = m[n.id]
-            if self.mode == "params" and isinstance(n, _ast.arg) and n.arg in m:
-                n.arg = m[n.arg]
-        return fn
-
-
 def neutral_rewrite(src: str, mode: str) -> str:
-    """roundtrip: re-print with ast.unparse; rename: every local renamed; params: every parameter of every jitted function renamed."""
-    tree = _ast.parse(src)
-    if mode in ("rename", "params"):
-        tree = _Renamer(mode).visit(tree)
-    return _ast.unparse(tree) + "\n"
+    from .neutral import transform
+
+    return transform(src, mode)
 
 
-def run_neutral(prop: str, repo: str, modes=("roundtrip", "rename", "params")) -> List[Dict[str, Any]]:
+def run_neutral(prop: str, repo: str, modes=None) -> List[Dict[str, Any]]:
+    from .neutral import MODES
+
+    modes = modes or MODES
     out = []
     for mode in modes:
         tmp = tempfile.mkdtemp(prefix=f"nucsverif-neutral-{mode}-")
